@@ -40,6 +40,19 @@ class Ty:
             return ('SEQUENCE' if k == 'seqof' else 'SET') + ' OF ' + self.elem.text()
         raise ValueError(k)
 
+    def refs(self):
+        k = self.kind
+        if k == 'ref':
+            return {self.name}
+        if k in ('seq', 'set', 'choice'):
+            out = set()
+            for m in self.members:
+                out |= m.ty.refs()
+            return out
+        if k in ('seqof', 'setof'):
+            return self.elem.refs()
+        return set()
+
     def reaches(self, name):
         k = self.kind
         if k == 'ref':
@@ -118,6 +131,32 @@ def shapes(tier):
                         text = f"M DEFINITIONS AUTOMATIC TAGS ::= BEGIN R ::= SEQUENCE {{ z BOOLEAN }} T ::= {t.text()} END"
                         sig = f"C02 {cont} n={n} pos={p} member[{label}] {opt}"
                         out.append((sig, text, {'top': t}))
+    # reference cycles over several type assignments (mutual recursion), optionally through anonymous nested types
+    conts = ('seq', 'set', 'choice')
+
+    def wrap(kind, inner_mem):
+        """anonymous nested constructed type containing the member"""
+        if kind is None:
+            return inner_mem.ty, inner_mem.opt
+        if kind == 'choice':
+            return Ty('choice', members=[Mem('n1', P('NULL')), Mem('n2', inner_mem.ty)]), 'req'
+        return Ty(kind, members=[Mem('n1', P('NULL')), Mem('n2', inner_mem.ty, inner_mem.opt)]), 'req'
+    nestings = [None, 'set', 'seq', 'choice'] if tier != 'quick' else [None, 'set']
+    for k1, k2 in itertools.product(conts, conts):
+        for nest in nestings:
+            o1 = 'req' if k1 == 'choice' else 'optional'
+            o2 = 'req' if k2 == 'choice' else 'optional'
+            t1, w1 = wrap(nest, Mem('x', R('Bb'), o1))
+            a = Ty(k1, members=[Mem('c', P('INTEGER')), Mem('f', t1, w1 if k1 != 'choice' else 'req')])
+            b = Ty(k2, members=[Mem('d', P('BOOLEAN')), Mem('g', R('Aa'), o2)])
+            text = f"M DEFINITIONS AUTOMATIC TAGS ::= BEGIN Aa ::= {a.text()} Bb ::= {b.text()} END"
+            out.append((f"C02 cycle2 {k1}/{k2} nest={nest}", text, {'defs': [('Aa', a), ('Bb', b)]}))
+    for k1, k2, k3 in (itertools.product(conts, conts, conts) if tier != 'quick' else [('set', 'set', 'seq'), ('seq', 'choice', 'set'), ('choice', 'set', 'set')]):
+        ms = []
+        for k, nxt, nm in ((k1, 'Bb', 'Aa'), (k2, 'Cc', 'Bb'), (k3, 'Aa', 'Cc')):
+            ms.append((nm, Ty(k, members=[Mem('c', P('INTEGER')), Mem('f', R(nxt), 'req' if k == 'choice' else 'optional')])))
+        text = "M DEFINITIONS AUTOMATIC TAGS ::= BEGIN " + ' '.join(f"{n} ::= {t.text()}" for n, t in ms) + " END"
+        out.append((f"C02 cycle3 {k1}/{k2}/{k3}", text, {'defs': ms}))
     # SEQUENCE OF / SET OF at top level
     for k in ('seqof', 'setof'):
         for label, mk, opts, dflt in interesting(tier):
@@ -160,12 +199,28 @@ class Matcher:
         self.used = set()
         self.fails = []
         self.edges = {}    # by-value type graph: item name -> set of item names
+        self.defs = {}
+        self.cur_top = None
 
     def fail(self, oracle, msg):
         self.fails.append((oracle, msg))
 
+    def leads_back(self, ty):
+        """does the component type reach (through references) the top-level type being matched?"""
+        seen = set()
+        todo = list(ty.refs())
+        while todo:
+            n = todo.pop()
+            if n == self.cur_top:
+                return True
+            if n in seen or n not in self.defs:
+                continue
+            seen.add(n)
+            todo += list(self.defs[n].refs())
+        return False
+
     def use(self, name):
-        if name in self.used and name not in ('R', 'T'):
+        if name in self.used and name not in self.defs:
             self.fail('duplicate-use', f"hoisted item {name} is used twice")
         self.used.add(name)
 
@@ -232,7 +287,7 @@ class Matcher:
             boxed = strip_wrapper(ty, 'Box')
             if boxed is not None:
                 ty = boxed
-                if not m.ty.reaches('T'):
+                if not self.leads_back(m.ty):
                     self.fail('box', f"{w}: Box<_> on a component that is not recursive")
             self.match_type(ty, m.ty, it.name, w, boxed=boxed is not None)
 
@@ -273,7 +328,7 @@ class Matcher:
                 want = PRIMS[e.name] if e.kind == 'prim' else e.name
                 if es != want.replace(' ', ''):
                     # the element may be wrapped into a hoisted delegate newtype (Anonymous..)
-                    if len(inner) == 1 and isinstance(inner[0], TIdent) and idname(inner[0]) in self.by_name and idname(inner[0]) not in ('R', 'T'):
+                    if len(inner) == 1 and isinstance(inner[0], TIdent) and idname(inner[0]) in self.by_name and idname(inner[0]) not in self.defs:
                         nm = idname(inner[0])
                         self.use(nm)
                         self.match_named(nm, e, where + '[]')
@@ -325,10 +380,14 @@ def judge(items, info, chk, pc, nwarn):
     if nwarn:
         return [('warning', f"{nwarn} warning(s): a definition was not generated")]
     m = Matcher(items)
-    m.used.update(['T', 'R'])
-    m.match_named('R', Ty('seq', members=[Mem('z', P('BOOLEAN'))]), 'R')
-    m.match_named('T', info['top'], 'T')
-    fails = m.finish({'T', 'R'})
+    defs = info.get('defs') or [('R', Ty('seq', members=[Mem('z', P('BOOLEAN'))])), ('T', info['top'])]
+    names = {n for n, _ in defs}
+    m.defs = dict(defs)
+    m.used.update(names)
+    for n, t in defs:
+        m.cur_top = n
+        m.match_named(n, t, n)
+    fails = m.finish(names)
     if chk is not None:
         chk.res.obligations += 1
         if not fails:
